@@ -121,6 +121,167 @@ func ruleEMP1(p *Program) *RuleResult {
 	return r
 }
 
+// scalarArgs: argument positions that require a single value (FHIRPath N1 signatures).
+var scalarArgs = map[string][]int{
+	"indexOf": {0}, "substring": {0, 1}, "startsWith": {0}, "endsWith": {0}, "contains": {0},
+	"replace": {0, 1}, "matches": {0}, "replaceMatches": {0, 1}, "skip": {0}, "take": {0},
+	"round": {0}, "log": {0}, "power": {0}, "toQuantity": {0}, "join": {0},
+}
+
+// argEvaluateCalls: Evaluate calls, in fn and the closures defined in it, whose
+// receiver is args[i] (args = the variadic parameter, directly or captured).
+func argEvaluateCalls(fn *ssa.Function, i int) []*ssa.Call {
+	var out []*ssa.Call
+	var visit func(f *ssa.Function, depth int)
+	isArgs := func(f *ssa.Function, v ssa.Value) bool {
+		for d := 0; d < 4; d++ {
+			switch x := v.(type) {
+			case *ssa.Parameter:
+				return len(fn.Params) == 3 && x == fn.Params[2]
+			case *ssa.UnOp:
+				v = x.X
+			case *ssa.Alloc:
+				// spilled parameter cell: initialised from the parameter
+				for _, ref := range *x.Referrers() {
+					if st, ok := ref.(*ssa.Store); ok && st.Addr == ssa.Value(x) {
+						if pr, ok := st.Val.(*ssa.Parameter); ok && len(fn.Params) == 3 && pr == fn.Params[2] {
+							return true
+						}
+					}
+				}
+				return false
+			case *ssa.FreeVar:
+				if al := capturedCell(x); al != nil {
+					v = al
+				} else {
+					return false
+				}
+			default:
+				return false
+			}
+		}
+		return false
+	}
+	visit = func(f *ssa.Function, depth int) {
+		if depth > 2 {
+			return
+		}
+		for _, b := range f.Blocks {
+			for _, ins := range b.Instrs {
+				c, ok := ins.(*ssa.Call)
+				if !ok || !c.Common().IsInvoke() || c.Common().Method.Name() != "Evaluate" {
+					continue
+				}
+				ld, ok := c.Common().Value.(*ssa.UnOp)
+				if !ok {
+					continue
+				}
+				ia, ok := ld.X.(*ssa.IndexAddr)
+				if !ok {
+					continue
+				}
+				k, ok := ia.Index.(*ssa.Const)
+				if !ok || k.Value == nil || k.Value.ExactString() != fmt.Sprint(i) {
+					continue
+				}
+				if isArgs(f, ia.X) {
+					out = append(out, c)
+				}
+			}
+		}
+		for _, af := range f.AnonFuncs {
+			visit(af, depth+1)
+		}
+	}
+	visit(fn, 0)
+	return out
+}
+
+// EMP3: an empty argument where a single value is required yields empty or an
+// error, never a value.
+func ruleEMP3(p *Program) *RuleResult {
+	r := newResult("EMP3")
+	base, exp, err := readBothTables(p)
+	if err != nil {
+		return r.anchorFail(err)
+	}
+	for ti, tab := range [][]funcEntry{base, exp} {
+		tname := []string{"baseTable", "experimentalTable"}[ti]
+		for _, e := range tab {
+			pos, ok := scalarArgs[e.Name]
+			if !ok || e.Placeholder {
+				continue
+			}
+			fn := p.ssaFuncOf(e.Impl)
+			if fn == nil || len(fn.Blocks) == 0 || len(fn.Params) != 3 {
+				continue
+			}
+			r.count("functions", 1)
+			for _, i := range pos {
+				// the arity range of the implementation itself (the table may admit fewer, C16)
+				hi := e.Max
+				if hi < i+1 {
+					hi = i + 1 // the table admits fewer arguments than the implementation (C16): test the implementation's own arity
+				}
+				for n := i + 1; n <= hi && n <= 4; n++ {
+					calls := argEvaluateCalls(fn, i)
+					key := fmt.Sprintf("%s[%s]|arg %d of %d", tname, e.Name, i, n)
+					desc := fmt.Sprintf("x.%s(…) with argument %d of %d empty, via %s", e.Name, i, n, e.ImplName)
+					if len(calls) == 0 {
+						if n == i+1 {
+							r.undecided(key, desc, p.pos(fn.Pos()), "no Evaluate call on args["+fmt.Sprint(i)+"] found")
+						}
+						continue
+					}
+					r.count("hypotheses", 1)
+					an := newAnalyzer()
+					an.maxBlocks = 300
+					for _, c := range calls {
+						an.pin[c] = okTuple(coll())
+					}
+					res := an.analyze(fn, []aval{nonnil("ctx"), aval{k: kSlice, n: 1}, sliceLen(n)})
+					if res.nonconverged {
+						r.undecided(key, desc, p.pos(fn.Pos()), "analysis did not converge")
+						continue
+					}
+					// is the argument evaluated at all under this arity?
+					evaluated := false
+					for _, c := range calls {
+						if c.Parent() != fn || res.executable(c) {
+							evaluated = true
+						}
+					}
+					var problems []string
+					nret := 0
+					for _, ri := range res.rets {
+						if classifyReturn(ri) == "error" && hasNote(ri.vals[1], "impl.ErrWrongArity") {
+							continue
+						}
+						nret++
+						switch classifyReturn(ri) {
+						case "value":
+							problems = append(problems, fmt.Sprintf("returns the value %s at %s", ri.vals[0], p.instrPos(ri.instr)))
+						case "unknown-collection":
+							problems = append(problems, fmt.Sprintf("returns an undetermined collection %s at %s", ri.vals[0], p.instrPos(ri.instr)))
+						}
+					}
+					if nret == 0 {
+						continue // arity not accepted by the implementation
+					}
+					_ = evaluated
+					if len(problems) == 0 {
+						r.ok(key, desc+" → empty or error", p.pos(fn.Pos()), "SCCP with the argument's evaluation pinned to the empty collection and a one-item input: no executable return carries a value", true)
+					} else {
+						r.bad(key, desc, p.pos(fn.Pos()), strings.Join(problems, "; "))
+					}
+				}
+			}
+		}
+	}
+	r.floor("functions", 10)
+	return r
+}
+
 // operator nodes: (type name, operand fields)
 var operatorNodes = []struct {
 	typ      string
